@@ -311,7 +311,8 @@ int lha_arch_mkdir(char *path, unsigned int unix_perms)
 {
 	__CPROVER_assert(path != NULL, "C08: lha_arch_mkdir gets a path");
 	vg_F.mkdirs++; vg_F.seq++; vg_F.mkdir_path = path; vg_F.mkdir_mode = unix_perms;
-	return nondet_int();
+	vg_F.mkdir_r = nondet_int();
+	return vg_F.mkdir_r;
 }
 LHAFileType lha_arch_exists(char *filename)
 {
@@ -319,6 +320,7 @@ LHAFileType lha_arch_exists(char *filename)
 	__CPROVER_assert(filename != NULL, "C08: lha_arch_exists gets a path");
 	vg_F.exists++; vg_F.exists_path = filename;
 	__CPROVER_assume(t == LHA_FILE_NONE || t == LHA_FILE_FILE || t == LHA_FILE_DIRECTORY || t == LHA_FILE_ERROR);
+	vg_F.exists_r = (int) t;
 	return t;
 }
 int lha_arch_chown(char *filename, int unix_uid, int unix_gid)
@@ -343,7 +345,8 @@ int lha_arch_symlink(char *path, char *target)
 {
 	__CPROVER_assert(path != NULL, "C08: lha_arch_symlink gets a path");
 	vg_F.symlinks++; vg_F.seq++; vg_F.symlink_path = path; vg_F.symlink_target = target;
-	return nondet_int();
+	vg_F.symlink_r = nondet_int();
+	return vg_F.symlink_r;
 }
 
 /* ------------------------------------------------------------------ set-up ------------------- */
@@ -360,6 +363,7 @@ static void vg_havoc(void)
 	__CPROVER_havoc_object(vg_ref);
 	__CPROVER_havoc_object(vg_where);
 	__CPROVER_havoc_object(vg_rank);
+	vg_rank_bound = 1000000;
 	__CPROVER_havoc_object(vg_plen);
 	__CPROVER_havoc_object(vg_flen);
 	__CPROVER_havoc_object(vg_ubuf);
@@ -494,8 +498,6 @@ void h_dangerous(void)
 }
 
 /* ------------------------------------------------------------------ C15/C10: list insertion ---- */
-/* new sequence after inserting header 0 at position K: */
-#define VG_NEWSEQ(K, j) ((j) < (K) ? vg_seq[(j) < VG_NH ? (j) : 0] : (j) == (K) ? (size_t) 0 : vg_seq[(j) - 1 < VG_NH ? (j) - 1 : 0])
 void h_placeholder(void)
 {
 	int r; int ref0; LHAFileHeader *head0; unsigned fo, fc, ar;
@@ -582,17 +584,24 @@ void h_free(void)
 	__CPROVER_assert(!vg_D.live0 && !vg_D.live1 && vg_D.frees0 == (c != 0) && vg_D.frees1 == (c == 2),
 	                 "C20: every decoder of the current entry is freed exactly once");
 	__CPROVER_assert(vg_B.frees == 1 && !vg_M.rd_live, "C20: the basic reader and the reader structure are released exactly once");
-	__CPROVER_assert(vg_hfree_calls == vg_n, "C20: one release per directory-stack entry");
+	__CPROVER_assert(vg_hfree_calls == vg_n + (VG_FREE_CASE == 0 ? 0u : 1u),
+	                 "C20: exactly one release per reference held (directory-stack entries, plus the deferred / re-presented entry of this case)");
 	__CPROVER_assert(vg_J < vg_n ==> vg_ref[vg_seq[vg_J]] == 0, "C20: the reference on every directory-stack entry is released");
 	__CPROVER_assert(vg_ref[vg_X] == 0, "C20: after lha_reader_free the reader holds no reference on any header");
 	VG_CANARY("lha_reader_free");
 }
 
 /* ------------------------------------------------------------------ C15: lha_reader_next_file -- */
-/* VG_NEXT_CASE 0: every entry state except "a deferred symlink is current"; 1: that state (the reference the reader
-   holds on the entry it leaves must be released: C20). */
+/* VG_NEXT_CASE (a complete case split on the state the call starts in) 0: archive member; 3: start or end; 2: a re-presented
+   directory is current; 1: a re-presented deferred symlink is current (the reference the reader holds on the entry it
+   leaves must be released: C20). */
 #ifndef VG_NEXT_CASE
 #define VG_NEXT_CASE 0
+#endif
+#if VG_NEXT_CASE == 0 || VG_NEXT_CASE == 2
+#define VG_BRANCH_CANARY(x) VG_CANARY(x)
+#else
+#define VG_BRANCH_CANARY(x) ((void) 0)     /* with empty lists (start / end) these branches do not exist */
 #endif
 void h_next_file(void)
 {
@@ -615,7 +624,11 @@ void h_next_file(void)
 	/* a decoder exists only for a member read from the archive */
 	__CPROVER_assume(vg_rd.curr_file_type != CURR_FILE_NORMAL ==> c == 0);
 #if VG_NEXT_CASE == 0
-	__CPROVER_assume(vg_rd.curr_file_type != CURR_FILE_DEFERRED_SYMLINK);
+	__CPROVER_assume(vg_rd.curr_file_type == CURR_FILE_NORMAL);
+#elif VG_NEXT_CASE == 3
+	__CPROVER_assume(vg_rd.curr_file_type == CURR_FILE_START || vg_rd.curr_file_type == CURR_FILE_EOF);
+#elif VG_NEXT_CASE == 2
+	__CPROVER_assume(vg_rd.curr_file_type == CURR_FILE_FAKE_DIR);
 #else
 	__CPROVER_assume(vg_rd.curr_file_type == CURR_FILE_DEFERRED_SYMLINK);
 #endif
@@ -652,10 +665,13 @@ void h_next_file(void)
 			__CPROVER_assert(r == top0 && vg_rd.curr_file_type == CURR_FILE_FAKE_DIR && vg_rd.dir_stack == top0_next &&
 			                 vg_rd.deferred_symlinks == def0 && lha_reader_current_is_fake(&vg_rd),
 			                 "C15: an extracted directory is re-presented at end of archive (both deferring policies) or at the first entry outside it (END_OF_DIR), once: it leaves the stack");
+			if (pol == LHA_READER_DIR_END_OF_DIR && input != NULL) { VG_BRANCH_CANARY("next_file: directory re-presented before an outside entry"); }
+			if (pol == LHA_READER_DIR_END_OF_FILE) { VG_BRANCH_CANARY("next_file: directory re-presented at end of archive"); }
 		} else if (input != NULL) {
 			__CPROVER_assert(r == input && vg_rd.curr_file_type == CURR_FILE_NORMAL && vg_rd.dir_stack == top0 &&
 			                 vg_rd.deferred_symlinks == def0 && !lha_reader_current_is_fake(&vg_rd),
 			                 "C15: otherwise the next member of the archive is presented and the lists are untouched");
+			if (top0 != NULL && pol == LHA_READER_DIR_END_OF_DIR) { VG_BRANCH_CANARY("next_file: member inside the top directory"); }
 		} else if (def0 != NULL) {
 			__CPROVER_assert(r == def0 && vg_rd.curr_file_type == CURR_FILE_DEFERRED_SYMLINK && vg_rd.deferred_symlinks == def0_next &&
 			                 r->_next == NULL && lha_reader_current_is_fake(&vg_rd),
@@ -664,17 +680,19 @@ void h_next_file(void)
 			                 "C10/C15: a deferred symlink is presented only after every archive member and every pending directory");
 			__CPROVER_assert(def0_next != NULL ==> VG_PLEN(VG_IDX(r)) >= VG_PLEN(VG_IDX(def0_next)),
 			                 "C10: longest path first: the entry presented is at least as long as the next one");
+			if (def0_next != NULL) { VG_BRANCH_CANARY("next_file: deferred symlink presented, more waiting"); }
 		} else {
 			__CPROVER_assert(r == NULL && vg_rd.curr_file_type == CURR_FILE_EOF, "C15: nothing left: end of archive");
+			VG_CANARY("next_file: end reached");
 		}
 		__CPROVER_assert((pol == LHA_READER_DIR_END_OF_FILE && input != NULL) ==> vg_rd.curr_file_type != CURR_FILE_FAKE_DIR,
 		                 "C15: END_OF_FILE policy: no directory is re-presented before the end of the archive");
 		__CPROVER_assert((pol == LHA_READER_DIR_END_OF_DIR && input != NULL && !outside) ==> vg_rd.curr_file_type != CURR_FILE_FAKE_DIR,
 		                 "C15: END_OF_DIR policy: no directory is re-presented while entries inside it keep coming");
 		/* references */
-		__CPROVER_assert(vg_hfree_calls == hf0 + (t0 == CURR_FILE_FAKE_DIR ? 1u : 0u) &&
-		                 vg_ref[vg_X] == refX0 - ((t0 == CURR_FILE_FAKE_DIR && vg_X == oc) ? 1 : 0),
-		                 "C20: the reference on a re-presented directory is released when it is left; no other reference changes");
+		__CPROVER_assert(vg_hfree_calls == hf0 + ((t0 == CURR_FILE_FAKE_DIR || t0 == CURR_FILE_DEFERRED_SYMLINK) ? 1u : 0u) &&
+		                 vg_ref[vg_X] == refX0 - (((t0 == CURR_FILE_FAKE_DIR || t0 == CURR_FILE_DEFERRED_SYMLINK) && vg_X == oc) ? 1 : 0),
+		                 "C20: the reference on a re-presented entry (directory or deferred symlink) is released when it is left; no other reference changes");
 		/* the representation invariant holds again, with the labelling updated for the entry left and the entry presented */
 		if (cur0 != NULL && vg_where[oc] == 3) {
 			vg_where[oc] = 0;
@@ -687,3 +705,285 @@ void h_next_file(void)
 	}
 	VG_CANARY("lha_reader_next_file");
 }
+
+/* ------------------------------------------------------------------ small loop-free functions -- */
+void h_close_decoder(void)
+{
+	int c = nondet_int();
+	LHAReader snap;
+	vg_havoc();
+	__CPROVER_assume(0 <= c && c <= 3);
+	vg_pick_decoder_config(c);
+	vg_D.frees0 = 0; vg_D.frees1 = 0;
+	snap = vg_rd;
+	close_decoder(&vg_rd);
+	__CPROVER_assert(VG_D0, "C15/C20: no decoder is left attached to the reader");
+	__CPROVER_assert(vg_D.frees0 == (c != 0) && vg_D.frees1 == (c == 2), "C20: each live decoder is freed exactly once (also the inner one left behind by a failed pass-through)");
+	__CPROVER_assert(vg_rd.curr_file == snap.curr_file && vg_rd.curr_file_type == snap.curr_file_type && vg_rd.dir_stack == snap.dir_stack &&
+	                 vg_rd.deferred_symlinks == snap.deferred_symlinks && vg_rd.dir_policy == snap.dir_policy && vg_rd.reader == snap.reader,
+	                 "frame: nothing else in the reader changes");
+	VG_CANARY("close_decoder");
+}
+
+/* lha_reader_read.  VG_READ_CASE 0: nothing open, or a decoder open (D0 / D1 / D2).  1: an earlier attempt to open
+   a decoder for this member failed after the inner decoder had been created (D3: MacBinary pass-through failed). */
+#ifndef VG_READ_CASE
+#define VG_READ_CASE 0
+#endif
+void h_read(void)
+{
+	int c = nondet_int(); size_t len = nondet_size_t(), r, total0; unsigned opens0; CurrFileType t0;
+	vg_havoc();
+	__CPROVER_assume(VG_TYPE_OK);
+#if VG_READ_CASE == 0
+	__CPROVER_assume(0 <= c && c <= 2);
+#else
+	c = 3;
+#endif
+	vg_pick_decoder_config(c);
+	vg_pick_current0();
+	__CPROVER_assume(vg_rd.curr_file_type != CURR_FILE_NORMAL ==> c == 0);
+	__CPROVER_assume(c != 0 ==> VG_DVIEW);
+	__CPROVER_assume(len <= sizeof(vg_ubuf));
+	total0 = vg_D.total; opens0 = vg_D.opens; t0 = vg_rd.curr_file_type;
+	r = lha_reader_read(&vg_rd, vg_ubuf, len);
+	__CPROVER_assert(r <= len, "C08/C15: never more bytes than asked for");
+	__CPROVER_assert(t0 != CURR_FILE_NORMAL ==> (r == 0 && VG_D0 && vg_D.opens == opens0),
+	                 "C15: entries the reader re-presents (and no entry at all) have no data: 0, nothing opened");
+	__CPROVER_assert((c == 1 || c == 2) ==> (vg_D.opens == opens0 && (c == 1 ? VG_D1 : VG_D2)),
+	                 "C15/C20: an open decoder is reused: at most one decoder per entry");
+	__CPROVER_assert(c == 0 ==> (vg_D.opens - opens0 <= 1 && (VG_D0 || VG_D1 || VG_D2 || VG_D3)), "C15: the first read opens at most one decoder");
+	__CPROVER_assert((c == 1 && vg_G >= total0 && vg_G - total0 < r) ==> vg_ubuf[vg_G - total0] == vg_pbyte,
+	                 "C15: the bytes handed to the caller are the next bytes of the member's produced stream, in order");
+	__CPROVER_assert(c == 1 ==> vg_D.total == total0 + r, "C15: the member's stream position advances by exactly the bytes returned");
+	VG_CANARY("lha_reader_read");
+}
+
+void h_end_of_top_dir(void)
+{
+	int r; LHAReader snap; LHAFileHeader *top, *input;
+	vg_havoc();
+	vg_pick_strings();
+	vg_rd.dir_stack = nondet_bool() ? NULL : &vg_h[vg_pick_index()];
+	vg_B.cur = nondet_bool() ? NULL : &vg_h[vg_pick_index()];
+	/* directory headers always carry a path (lib/lha_file_header.c sanity check; extract_directory pushes only those) */
+	__CPROVER_assume(vg_rd.dir_stack != NULL ==> vg_rd.dir_stack->path != NULL);
+	__CPROVER_assume(VG_POLICY_OK);
+	snap = vg_rd; top = vg_rd.dir_stack; input = vg_B.cur;
+	r = end_of_top_dir(&vg_rd);
+	__CPROVER_assert(top == NULL ==> r == 0, "C15: no pending directory, nothing to re-present");
+	__CPROVER_assert((top != NULL && input == NULL) ==> r != 0, "C15: at end of archive every pending directory is re-presented (both deferring policies)");
+	__CPROVER_assert((top != NULL && input != NULL && vg_rd.dir_policy == LHA_READER_DIR_END_OF_FILE) ==> r == 0,
+	                 "C15: END_OF_FILE: not before the end of the archive");
+	if (top != NULL && input != NULL && vg_rd.dir_policy == LHA_READER_DIR_END_OF_DIR) {
+		__CPROVER_assert(input->path == NULL ==> r != 0, "C15: END_OF_DIR: an entry without a path is outside every directory");
+		if (input->path != NULL) {
+			__CPROVER_assert(vg_strncmp_calls == 1 && vg_strncmp_a == input->path && vg_strncmp_b == top->path && vg_strncmp_n == vg_plen[VG_IDX(top)],
+			                 "C15: END_OF_DIR: 'inside' = the entry's path starts with the whole path of the top directory");
+			__CPROVER_assert((r != 0) == (vg_strncmp_r != 0), "C15: END_OF_DIR: re-present exactly when the entry is outside the top directory");
+			VG_CANARY("end_of_top_dir: prefix test");
+		}
+	}
+	__CPROVER_assert(vg_rd.curr_file == snap.curr_file && vg_rd.curr_file_type == snap.curr_file_type && vg_rd.dir_stack == snap.dir_stack &&
+	                 vg_rd.deferred_symlinks == snap.deferred_symlinks && vg_rd.dir_policy == snap.dir_policy && vg_rd.decoder == snap.decoder &&
+	                 vg_rd.inner_decoder == snap.inner_decoder && vg_B.next_calls == 0 + vg_B.next_calls, "frame: a pure query");
+	VG_CANARY("end_of_top_dir");
+}
+
+void h_set_directory_metadata(void)
+{
+	int r; unsigned u0, o0, m0, s0, mk0, sl0, fo0; size_t i = vg_pick_index();
+	vg_havoc();
+	u0 = vg_F.utimes; o0 = vg_F.chowns; m0 = vg_F.chmods; s0 = vg_F.seq; mk0 = vg_F.mkdirs; sl0 = vg_F.symlinks; fo0 = vg_F.fopens;
+	__CPROVER_assume(s0 < 1000);
+	r = set_directory_metadata(&vg_h[i], vg_userfn);
+	__CPROVER_assert(VG_META_DONE(vg_h[i], (char *) vg_userfn, u0, o0, m0),
+	                 "C10: time stamp, owner and permissions recorded in the header are applied to the given path and to nothing else, permissions last");
+	__CPROVER_assert(vg_F.mkdirs == mk0 && vg_F.symlinks == sl0 && vg_F.fopens == fo0, "C10: nothing is created");
+	__CPROVER_assert(r == 0 ==> VG_HAVE(vg_h[i], LHA_FILE_UNIX_PERMS), "failure is reported only for a failed permission change");
+	VG_CANARY("set_directory_metadata");
+}
+
+void h_misc(void)
+{
+	LHAReaderDirPolicy p; LHAReader snap;
+	vg_havoc();
+	__CPROVER_assume(VG_TYPE_OK);
+	snap = vg_rd;
+	__CPROVER_assert((lha_reader_current_is_fake(&vg_rd) != 0) ==
+	                 (vg_rd.curr_file_type == CURR_FILE_FAKE_DIR || vg_rd.curr_file_type == CURR_FILE_DEFERRED_SYMLINK),
+	                 "C15: exactly the entries the reader re-presents on its own are reported as fake");
+	lha_reader_set_dir_policy(&vg_rd, p);
+	__CPROVER_assert(vg_rd.dir_policy == p && vg_rd.curr_file == snap.curr_file && vg_rd.curr_file_type == snap.curr_file_type &&
+	                 vg_rd.dir_stack == snap.dir_stack && vg_rd.deferred_symlinks == snap.deferred_symlinks && vg_rd.decoder == snap.decoder &&
+	                 vg_rd.inner_decoder == snap.inner_decoder && vg_rd.reader == snap.reader,
+	                 "C15: selecting a policy changes the policy and nothing else");
+	VG_CANARY("current_is_fake / set_dir_policy");
+}
+
+/* ------------------------------------------------------------------ extract_directory (dfcc) --- */
+void h_extract_directory(void)
+{
+	LHAReader *reader; char *path; int r; int minrank;
+	vg_havoc();
+	vg_pick_strings();
+	path = nondet_bool() ? NULL : vg_userfn;
+	vg_rd.curr_file = &vg_h[0];
+	vg_rd.dir_stack = nondet_bool() ? NULL : &vg_h[vg_pick_index()];
+	vg_rd.deferred_symlinks = nondet_bool() ? NULL : &vg_h[vg_pick_index()];
+	vg_B.cur = &vg_h[0];
+	vg_rd.curr_file_type = CURR_FILE_NORMAL;
+	__CPROVER_assume(path != NULL || vg_h[0].path != NULL);
+	/* list invariant holds, the current entry is a member on which the reader holds no reference yet (one extract per entry) */
+	__CPROVER_assume(VG_RI_LISTS && VG_RI_CURR && VG_POLICY_OK && vg_where[0] == 0 && vg_h[0].path != NULL);
+	r = extract_directory(reader, path);
+	/* the list invariant holds again with the pushed header labelled and ranked in front of the old stack */
+	if (vg_rd.dir_stack == &vg_h[0]) {
+		/* old top (now the successor) has the smallest rank of the stack */
+		minrank = vg_h[0]._next != NULL ? vg_rank[VG_IDX(vg_h[0]._next)] : 1;
+		vg_where[0] = 1;
+		vg_rank[0] = minrank - 1;
+		vg_rank_bound++;
+		VG_CANARY("extract_directory: pushed");
+	}
+	__CPROVER_assert(VG_RI_LISTS && VG_RI_CURR, "C15/C20: list invariant re-established after extract_directory");
+	VG_CANARY("extract_directory");
+}
+
+/* ------------------------------------------------------------------ extract_symlink (legacy) ---- */
+#define VG_HDR_EQ(a, b) ((a)._refcount == (b)._refcount && (a)._next == (b)._next && (a).path == (b).path && (a).filename == (b).filename && \
+	(a).symlink_target == (b).symlink_target && (a).compress_method[0] == (b).compress_method[0] && (a).compress_method[1] == (b).compress_method[1] && \
+	(a).compress_method[2] == (b).compress_method[2] && (a).compress_method[3] == (b).compress_method[3] && (a).compress_method[4] == (b).compress_method[4] && \
+	(a).compress_method[5] == (b).compress_method[5] && (a).compressed_length == (b).compressed_length && (a).length == (b).length && \
+	(a).header_level == (b).header_level && (a).os_type == (b).os_type && (a).crc == (b).crc && (a).timestamp == (b).timestamp && \
+	(a).raw_data == (b).raw_data && (a).raw_data_len == (b).raw_data_len && (a).extra_flags == (b).extra_flags && (a).unix_perms == (b).unix_perms && \
+	(a).unix_uid == (b).unix_uid && (a).unix_gid == (b).unix_gid && (a).os9_perms == (b).os9_perms && (a).unix_username == (b).unix_username && \
+	(a).unix_group == (b).unix_group && (a).common_crc == (b).common_crc && (a).win_creation_time == (b).win_creation_time && \
+	(a).win_modification_time == (b).win_modification_time && (a).win_access_time == (b).win_access_time)
+/* VG_XS_CASE 0: functional contract; 2: its frame; 1: C20 obligation that the temporary path string is released on every way out */
+#ifndef VG_XS_CASE
+#define VG_XS_CASE 0
+#endif
+static void vg_symlink_state(void)
+{
+	vg_target_string();
+	vg_rd.curr_file = &vg_h[0];
+	vg_h[0].symlink_target = vg_tgt;
+	vg_rd.deferred_symlinks = (vg_n == 0) ? NULL : &vg_h[vg_pick_index()];
+	__CPROVER_assume(VG_DEFERRED_PRE);
+	__CPROVER_assume(vg_J <= vg_n);
+	__CPROVER_assume(!vg_F.file_open && !vg_M.tmp_live);
+	__CPROVER_assume(vg_ref[0] >= 0 && vg_ref[0] < 1000);
+}
+void h_extract_symlink(void)
+{
+	char *filename; int r; CurrFileType t;
+	unsigned sl0, fo0, fc0, ar0, ta0; int ref0; LHAFileHeader *head0;
+	LHAReader snap; LHAFileHeader hs; size_t y = vg_pick_index(); int refy; char tx;
+	unsigned hf0, mk0, ut0, co0, cm0, dopens, df0, df1, dm0, dp0, bn0, bf0;
+	vg_havoc();
+	vg_pick_strings();
+	vg_symlink_state();
+	filename = nondet_bool() ? NULL : vg_userfn;
+	__CPROVER_assume(vg_rd.curr_file_type == CURR_FILE_NORMAL || vg_rd.curr_file_type == CURR_FILE_DEFERRED_SYMLINK);
+	t = vg_rd.curr_file_type;
+	sl0 = vg_F.symlinks; fo0 = vg_F.fopens; fc0 = vg_F.fcloses; ar0 = vg_addref_calls; ta0 = vg_M.tmp_allocs; ref0 = vg_ref[0]; head0 = vg_rd.deferred_symlinks;
+	snap = vg_rd; hs = vg_h[y]; refy = vg_ref[y]; tx = vg_tgt[vg_X]; hf0 = vg_hfree_calls; mk0 = vg_F.mkdirs; ut0 = vg_F.utimes; co0 = vg_F.chowns; cm0 = vg_F.chmods;
+	dopens = vg_D.opens; df0 = vg_D.frees0; df1 = vg_D.frees1; dm0 = vg_D.mon_calls; dp0 = vg_D.pass_calls; bn0 = vg_B.next_calls; bf0 = vg_B.frees;
+	r = extract_symlink(&vg_rd, filename);
+#if VG_XS_CASE == 0
+	__CPROVER_assert(VG_XS_POST(r, filename, t, sl0, fo0, fc0, ref0, ar0, head0, ta0),
+	                 "C10/C15: a dangerous link met in the archive is replaced by a placeholder and deferred (once, list stays sorted); every other link, and every re-presented deferred link, is created at once and nothing is deferred");
+	if (vg_F.symlinks == sl0 && r != 0) { VG_CANARY("extract_symlink: deferred"); }
+	if (vg_F.symlinks != sl0 && t == CURR_FILE_NORMAL) { VG_CANARY("extract_symlink: safe link created at once"); }
+	if (vg_F.symlinks != sl0 && t == CURR_FILE_DEFERRED_SYMLINK) { VG_CANARY("extract_symlink: deferred link created when re-presented"); }
+#elif VG_XS_CASE == 2
+	/* frame = the assigns clause of the @fn contract (dispatcher groups replace the call by that contract; the contract
+	   instrumentation cannot enforce a function that still contains loops, so the frame is checked here): besides the
+	   recorders vg_F / vg_M, vg_ref[0] and the _next links, nothing changes */
+	__CPROVER_assert(vg_rd.curr_file_type == t && vg_rd.curr_file == &vg_h[0] && vg_rd.reader == snap.reader && vg_rd.decoder == snap.decoder &&
+	                 vg_rd.inner_decoder == snap.inner_decoder && vg_rd.dir_policy == snap.dir_policy && vg_rd.dir_stack == snap.dir_stack,
+	                 "frame: reader fields other than the deferred list head are unchanged");
+	hs._next = vg_h[y]._next;
+	__CPROVER_assert(VG_HDR_EQ(hs, vg_h[y]), "frame: no header field other than _next changes (arbitrary pool header)");
+	__CPROVER_assert((y != 0 ==> vg_ref[y] == refy) && vg_tgt[vg_X] == tx && vg_hfree_calls == hf0 && vg_F.mkdirs == mk0 &&
+	                 vg_F.utimes == ut0 && vg_F.chowns == co0 && vg_F.chmods == cm0,
+	                 "frame: no other reference, no target byte changes; no directory is made, no metadata applied");
+	__CPROVER_assert(vg_D.opens == dopens && vg_D.frees0 == df0 && vg_D.frees1 == df1 && vg_D.mon_calls == dm0 && vg_D.pass_calls == dp0 &&
+	                 vg_B.next_calls == bn0 && vg_B.frees == bf0, "frame: no decoder or basic-reader call is made");
+	__CPROVER_assert((vg_F.symlinks != sl0 || (filename == NULL && vg_M.tmp_allocs == ta0)) ==> !vg_M.tmp_live,
+	                 "C20: temporary path released when the link is created at once or no name could be built");
+#else
+	__CPROVER_assert(!vg_M.tmp_live, "C20: the temporary path string is released on every way out of extract_symlink");
+#endif
+	VG_CANARY("extract_symlink");
+}
+
+/* ------------------------------------------------------------------ dispatch (dfcc) ----------- */
+static void vg_extract_state(void)
+{
+	vg_pick_strings();
+	vg_target_string();
+	vg_rd.curr_file = &vg_h[0];
+	vg_h[0].symlink_target = nondet_bool() ? NULL : vg_tgt;
+	vg_rd.deferred_symlinks = (vg_n == 0) ? NULL : &vg_h[vg_pick_index()];
+	vg_rd.dir_stack = nondet_bool() ? NULL : &vg_h[vg_pick_index()];
+	vg_pick_decoder_config(0);
+	__CPROVER_assume(VG_TYPE_OK && VG_POLICY_OK);
+	__CPROVER_assume(vg_ref[0] >= 0 && vg_ref[0] < 1000);
+	__CPROVER_assume(VG_X_PRE);
+	if (vg_rd.curr_file_type == CURR_FILE_NORMAL) {
+		vg_B.cur = &vg_h[0];
+	}
+}
+void h_extract_normal(void)
+{
+	LHAReader *reader; char *filename; LHADecoderProgressCallback callback; void *callback_data; int r;
+	vg_havoc();
+	vg_extract_state();
+	filename = nondet_bool() ? NULL : vg_userfn;
+	__CPROVER_assume(vg_rd.curr_file_type == CURR_FILE_NORMAL);
+	r = extract_normal(reader, filename, callback, callback_data);
+	if (!VG_IS_DIR(vg_h[0]) && r != 0) { VG_CANARY("extract_normal: file extracted"); }
+	if (VG_IS_LINK0 && r != 0) { VG_CANARY("extract_normal: link"); }
+	if (VG_IS_DIRECTORY0 && r != 0) { VG_CANARY("extract_normal: directory"); }
+	VG_CANARY("extract_normal");
+}
+void h_extract(void)
+{
+	LHAReader *reader; char *filename; LHADecoderProgressCallback callback; void *callback_data; int r;
+	vg_havoc();
+	vg_extract_state();
+	filename = nondet_bool() ? NULL : vg_userfn;
+	__CPROVER_assume(vg_rd.curr_file_type == CURR_FILE_FAKE_DIR ==> (filename != NULL || vg_h[0].path != NULL));
+	__CPROVER_assume(vg_rd.curr_file_type == CURR_FILE_DEFERRED_SYMLINK ==> vg_h[0].symlink_target != NULL);
+	r = lha_reader_extract(reader, filename, callback, callback_data);
+	if (vg_rd.curr_file_type == CURR_FILE_FAKE_DIR) { VG_CANARY("lha_reader_extract: re-presented directory"); }
+	if (vg_rd.curr_file_type == CURR_FILE_DEFERRED_SYMLINK && r != 0) { VG_CANARY("lha_reader_extract: deferred symlink created"); }
+	if (vg_rd.curr_file_type == CURR_FILE_NORMAL && r != 0) { VG_CANARY("lha_reader_extract: member"); }
+	if (vg_rd.curr_file_type == CURR_FILE_EOF) { VG_CANARY("lha_reader_extract: no entry"); }
+	VG_CANARY("lha_reader_extract");
+}
+
+/* ------------------------------------------------------------------ lha_reader_new (plain, real allocator) ---- */
+#ifdef VG_REAL_ALLOC
+/* ASSUME: lha_basic_reader_new returns NULL (allocation failure) or a basic reader handle. */
+LHABasicReader *lha_basic_reader_new(LHAInputStream *stream)
+{
+	return nondet_bool() ? NULL : VG_BR;
+}
+void h_new(void)
+{
+	LHAReader *r; LHAInputStream *stream;
+	r = lha_reader_new(stream);
+	if (r != NULL) {
+		__CPROVER_assert(r->reader == VG_BR && r->curr_file == NULL && r->curr_file_type == CURR_FILE_START && r->decoder == NULL &&
+		                 r->inner_decoder == NULL && r->dir_stack == NULL && r->deferred_symlinks == NULL &&
+		                 r->dir_policy == LHA_READER_DIR_END_OF_DIR,
+		                 "C15: a new reader starts before the first entry, with no decoder, empty lists and the documented default policy");
+		VG_CANARY("lha_reader_new: success");
+		free(r);
+	}
+	VG_CANARY("lha_reader_new");
+}
+#endif
